@@ -59,3 +59,126 @@ def c17(tier: str) -> PropResult:
         "tolerance the property states (exact containment; 4 ulp for identity; (16+8n) ulp for the repaired value)",
         "apply_bounds is the only bound-repair entry point (its callers are covered by C01)",
     ])
+
+
+# ----------------------------------------------------------------------------- corpus / model based properties
+STALL_SIG = "idle metaepoch in which every active deme was hibernating at its start"
+CONV_SIG = "idle metaepoch in which every awake active deme ran but re-used the fitness of unchanged genomes"
+
+# clauses checked on the design model, by property (INVARIANT / PROPERTY names of HMSModel.tla)
+MODEL_CLAUSES = {
+    "C03": ["Inv_C03_TotalIsSumOfLevels"],
+    "C05": ["Inv_C05_WindDownAtMostOne", "Inv_C05_DoneImpliesGsc", "Inv_C05_CounterEqualsPerformed",
+            "Act_C05_NoSproutAfterGsc", "Act_C05_McMonotone"],
+    "C06": ["Inv_C06_SteppedExactlyOnce", "Inv_C06_NewbornHasNotRun", "Act_C06_InactiveFrozen", "Act_C06_StopCauses"],
+    "C07": ["Inv_C07_Structure", "Inv_C07_IdLaw"],
+    "C08": ["Inv_C08_ActiveWithinLimit", "Act_C08_RoundWithinFree"],
+    "C18": ["Inv_C18_HibIff", "Inv_C18_OffMeansNever", "Inv_C18_AsleepMeansFrozen", "Inv_C18_NoIdleUnlessAllAsleep"],
+}
+
+ASSUME_TRACE = [
+    "objective functions of the corpus are deterministic (harness/objectives.py); the recorder's atoms inbox / "
+    "truth / centroid-is-mean / far are computed by the harness from the configured bounds and a pure copy of the objective",
+    "call attribution walks the Python stack to the nearest deme frame (harness side only)",
+    "CMA-ES' internal stop is not observable through the public API and is accepted whenever a CMA deme turns "
+    "inactive without a stop-condition verdict",
+    "bounds of the design model: see coverage.model; bounds of the corpus: see coverage.corpus",
+]
+
+
+def _corpus_violations(pid: str, tier: str):
+    from .mod_corpus import corpus_stage
+    cs = corpus_stage(tier)
+    viols = []
+    for r in cs["results"]:
+        per = {}
+        for clause, idx in r["viol"]:
+            per.setdefault(clause, []).append(idx)
+        for clause, idxs in per.items():
+            if clause == "C18_IdleAllAsleep" and pid == "C18":
+                viols.append(Violation("C18", "C18_NoIdleMetaepoch", f"{STALL_SIG} (trace={r['name']} event={idxs[0]})",
+                                       {"events": idxs[:10], "trace": r["name"]}))
+            elif clause == "C18_IdleConverged" and pid == "C18":
+                viols.append(Violation("C18", "C18_NoIdleMetaepoch", f"{CONV_SIG} (trace={r['name']} event={idxs[0]})",
+                                       {"events": idxs[:10], "trace": r["name"]}))
+            elif clause in ("C18_IdleAllAsleep", "C18_IdleConverged"):
+                pass
+            elif clause in ("RunCrashed",) and pid == "C05":
+                viols.append(Violation("C05", "C05_RunCompletes", f"run raised an exception (trace={r['name']})",
+                                       {"trace": r["name"]}))
+            elif clause.startswith(pid + "_"):
+                viols.append(Violation(pid, clause, f"{clause} trace={r['name']} event={idxs[0]}",
+                                       {"events": idxs[:10], "trace": r["name"]}))
+    if pid == "C05":
+        for nt in cs["notrace"]:
+            if nt["status"] in ("timeout", "crash"):
+                viols.append(Violation("C05", "C05_RunCompletes", f"run did not complete: {nt['status']} (trace={nt['name']})",
+                                       {"info": nt["info"]}))
+    return cs, viols
+
+
+def _model_violations(pid: str, tier: str):
+    from .mod_model import model_stage
+    ms = model_stage(tier)
+    viols = []
+    for name in ms["violated"]:
+        if name in MODEL_CLAUSES.get(pid, []) or (name == "property" and pid in MODEL_CLAUSES):
+            viols.append(Violation(pid, f"model:{name}", f"design model violates {name}", {"tlc": ms["tail"][-1500:]}))
+    return ms, viols
+
+
+def _corpus_cov(cs, ms, pid, extra_rule=""):
+    st = cs["stats"]
+    cov = {
+        "states": (ms["distinct"] if ms else 0) + cs["tlc_states"],
+        "transitions": (ms["generated"] if ms else 0) + cs["tlc_states"],
+        "traces_validated_against_impl": cs["n_traces"],
+        "samples": [cs["sample"]],
+        "evaluations": cs["n_traces"], "distinct_nontrivial": cs["n_traces"],
+        "rule": "one evaluation = one recorded run of the real library (randomized configurations over the engine matrix, "
+                "the repository's own test configurations, TLC-generated scenario scripts), validated event by event "
+                "against HMS.tla by TLC; all runs are distinct configurations/seeds" + extra_rule,
+        "corpus": {k: v for k, v in st.items()},
+        "trace_spec_states": cs["tlc_states"],
+    }
+    if ms:
+        cov["model"] = {"module": "MC_HMS.tla", "cfg": ms["cfg"], "distinct_states": ms["distinct"],
+                        "generated": ms["generated"], "depth": ms["depth"], "action_coverage": ms["action_coverage"],
+                        "clauses": MODEL_CLAUSES.get(pid, []),
+                        "stall_witness_reachable": ms["stall_witness_reachable"]}
+    return cov
+
+
+def _need(stats, keys):
+    return [k for k in keys if stats.get(k, 0) == 0]
+
+
+def _corpus_prop(pid, need, with_model=True, extra_assume=()):
+    def fn(tier: str) -> PropResult:
+        cs, v1 = _corpus_violations(pid, tier)
+        ms, v2 = _model_violations(pid, tier) if with_model else (None, [])
+        vac = _need(cs["stats"], need)
+        if ms and ms["untaken_actions"]:
+            vac += ["model action never taken: " + a for a in ms["untaken_actions"]]
+        return PropResult(v1 + v2, _corpus_cov(cs, ms, pid), ASSUME_TRACE + list(extra_assume), vacuity=vac)
+    REGISTRY[pid] = fn
+    return fn
+
+
+_corpus_prop("C01", ["objective_calls", "generations_recorded", "rounds_with_sprouts", "engine:LOCAL", "engine:CMA",
+                     "engine:DE", "engine:SHADE", "engine:SEA", "engine:LHS", "engine:SOBOL"], with_model=False)
+_corpus_prop("C02", ["generations_recorded", "engine:LOCAL", "engine:CMA", "engine:DE", "snapshots_after_refusal"],
+             with_model=False)
+_corpus_prop("C03", ["ev:gsc", "engine:LOCAL", "gsc:SingularEvalLimit", "gsc:WeightedEvalLimit"])
+_corpus_prop("C04", ["generations_recorded", "maximize", "minimize"], with_model=False)
+_corpus_prop("C05", ["gsc_first_true_at:run", "gsc_first_true_at:step", "gsc_first_true_at:deme",
+                     "gsc_true_with_demes_still_queued", "gsc:MetaepochLimit", "gsc:SingularEvalLimit",
+                     "gsc:WeightedEvalLimit", "gsc:RootStopped", "gsc:AllStopped", "gsc:NoActiveNonroot", "gsc:Scripted"])
+_corpus_prop("C06", ["lsc_true", "ev:lsc", "rounds_with_sprouts", "hibernation_on", "hibernation_off"])
+_corpus_prop("C07", ["rounds_with_sprouts", "rounds_with_several_parents", "levels=3", "levels=1"])
+_corpus_prop("C08", ["rounds_with_sprouts", "rounds_where_filters_removed", "rounds_with_several_parents", "lsc_true"])
+_corpus_prop("C09", ["far_atoms", "rounds_with_sprouts"], with_model=False)
+_corpus_prop("C11", ["generations_recorded", "engine:SEA", "engine:DE", "engine:SHADE", "engine:CMA", "engine:MWEA"],
+             with_model=False)
+_corpus_prop("C12", ["generations_recorded", "engine:SEA", "engine:DE", "engine:SHADE", "maximize"], with_model=False)
+_corpus_prop("C18", ["deme_snapshots_hibernating", "hibernation_on", "hibernation_off", "levels=3", "rounds_empty"])
